@@ -144,7 +144,7 @@ def pick_config(rng):
     upper = rng.choice([1200, 1452, 1452, 1500, 1500, 9000, 65527, 1000, min_mtu, min_mtu + 2, 1300])
     interval = rng.choice([0, 1000, 1000, 600_000_000])
     cooldown = rng.choice([0, 500, 500, 60_000_000])
-    mc = rng.choice([20, 20, 20, 1, 2, 3, 4, 100, 0, 5])
+    mc = rng.choice([20, 20, 20, 3, 3, 4, 100, 5])      # minimum_change < 3: only in minchange_case
     return [0, initial, min_mtu, -1 if peer is None else peer, enabled, upper, interval, cooldown, mc]
 
 
@@ -325,11 +325,27 @@ def soup_case(rng):
     return ops
 
 
+def minchange_case(rng):
+    """minimum_change 0/1/2 (legal through MtuDiscoveryConfig::minimum_change, which validates nothing): these
+    configurations violate probe_bounds / mtu_floor (known finding mtud-minimum-change-below-3); the stream keeps
+    model == implementation checked on them."""
+    c = link_case(rng) if rng.chance(2, 3) else soup_case(rng)
+    if c and c[0][0] == 0 and len(c[0]) == 9:
+        c[0][8] = rng.choice([0, 1, 2])
+        if rng.chance(1, 2):
+            # narrow searches make the degenerate probes (== or < current MTU) likely
+            c[0][5] = min(65535, max(c[0][1], c[0][2]) + rng.choice([0, 1, 2, 3, 4]))
+            c[0][3] = -1
+    return c
+
+
 def gen(rng, n):
     cases = []
     for i in range(n):
         k = rng.below(20)
-        if k < 11:
+        if k < 1 or (k < 2 and i % 2 == 0):
+            cases.append(minchange_case(rng))
+        elif k < 11:
             cases.append(link_case(rng))
         elif k < 15:
             cases.append(bhd_case(rng))
@@ -361,13 +377,15 @@ def nontrivial(case, outs):
 def stats(cases, outs):
     d = {"ops": {}, "panic_cases": 0, "probes": 0, "probe_acks": 0, "mtu_raised": 0, "black_holes": 0,
          "retransmit_exhausted": 0, "probe_after_black_hole": 0, "not_new_first": 0,
-         "probe_eq_current_mtu": 0, "peer_below_min_mtu": 0, "min_mtu_gt_initial": 0}
+         "probe_eq_current_mtu": 0, "probe_below_current_mtu": 0, "minimum_change_below_3": 0, "peer_below_min_mtu": 0, "min_mtu_gt_initial": 0}
     for c, o in zip(cases, outs):
         if c and c[0][0] == 0 and len(c[0]) == 9:
             if 0 <= c[0][3] < c[0][2]:
                 d["peer_below_min_mtu"] += 1
             if c[0][1] < c[0][2]:
                 d["min_mtu_gt_initial"] += 1
+            if c[0][8] < 3:
+                d["minimum_change_below_3"] += 1
         if o == [[-999]]:
             d["panic_cases"] += 1
             continue
@@ -385,6 +403,8 @@ def stats(cases, outs):
                 d["probes"] += 1
                 if prev is not None and r[0] == prev:
                     d["probe_eq_current_mtu"] += 1
+                if prev is not None and r[0] < prev:
+                    d["probe_below_current_mtu"] += 1
                 sizes.append(r[0])
                 if len(sizes) >= 4 and sizes[-4] == sizes[-3] == sizes[-2] and sizes[-1] < sizes[-2]:
                     d["retransmit_exhausted"] += 1
@@ -405,11 +425,24 @@ def stats(cases, outs):
 def classify(case, outs):
     """Stable keys of the known findings of this component.
 
+    mtud-minimum-change-below-3: MtuDiscoveryConfig::minimum_change accepts 0, 1, 2; then poll_transmit issues probes
+    equal to (2), below (1) or endlessly equal to (0) the current MTU; an acknowledged smaller probe lowers the
+    estimate, also below min_mtu.
+
     mtud-disabled-forgets-peer-limit (F8b): with MTU discovery disabled the peer's max_udp_payload_size is not
     remembered, so `reset` (Connection::path_changed) sets the estimate back above it."""
     if outs == [[-999]] or not case or case[0][0] != 0 or len(case[0]) != 9:
         return None
     if case[0][4] != 0:
+        # mtud-minimum-change-below-3: minimum_change in {0,1,2} and a probe not above the current MTU was issued
+        if 0 <= case[0][8] < 3:
+            prev = None
+            for op, o in zip(case, outs):
+                if len(o) != 3:
+                    continue
+                if op[0] == 3 and len(op) == 3 and o[0] >= 0 and prev is not None and o[0] <= prev:
+                    return "mtud-minimum-change-below-3"
+                prev = o[1]
         return None
     peer = 65527 if case[0][3] < 0 else case[0][3]
     if case[0][1] >= case[0][2] and len(outs[0]) == 3 and outs[0][1] > peer:
